@@ -4,8 +4,8 @@
 
    PARTIAL ON THE NUMERIC DISTANCE.  Every theorem quantifies over the distance function [dist] (what the code
    computes with libm sin/cos/asin/sqrt in binary64).  What is proved is the chain logic and the decision rule
-   around the distance (dist < d strict, grid bounds closed, no position passes, nothing raises) for EVERY such
-   function.  That pyais.filter.haversine is the great-circle distance (to 1e-6 km) and that it never raises on
+   around the distance (dist < d strict, grid bounds closed, no position passes, nothing raises -- reading a
+   computed attribute that cannot be computed for a message included) for EVERY such function.  That pyais.filter.haversine is the great-circle distance (to 1e-6 km) and that it never raises on
    real arguments is NOT proved: it is tested on every run against an independent 50-digit evaluation
    (tools/props/C19.py, part "numeric", labelled a test).  Hence the name C19_partial. *)
 From Coq Require Import ZArith List Bool String Permutation.
@@ -14,8 +14,11 @@ Import ListNotations.
 Open Scope Z_scope.
 
 (* The whole property for one distance function: for every non-empty chain (any length, any parameters, any
-   user functions), every reordering of it, every stream whose sentences all decode to messages of the decoded
-   shape (lat/lon absent, None or numbers) on which no USER function raises:  no filter raises; the chain yields
+   user functions, any attribute names -- stored fields, computed attributes, names no message has), every
+   reordering of it, every stream whose sentences all decode to messages of the decoded shape ([coords_numeric]:
+   lat/lon absent, None or numbers; [attr_reads_ok]: reading an attribute returns a value or -- a computed
+   attribute that cannot be computed for this message -- raises TypeError / ValueError; both boolean, both
+   evaluated by the harness on every message it decodes) on which no USER function raises:  no filter raises; the chain yields
    the conjunction filter's output and ends normally; that output is an order-preserving subsequence of the
    input which keeps exactly the positions whose message satisfies all criteria; the order of the filters does
    not matter. *)
@@ -24,6 +27,7 @@ Definition C19_statement (dist : lat_lon -> lat_lon -> ratio) : Prop :=
   filters <> [] -> Permutation filters filters' ->
   map decode stream = map Ok xs ->
   forallb coords_numeric xs = true ->
+  forallb attr_reads_ok xs = true ->
   user_functions_total filters xs ->
   let out := conj_filter dist (map criterion_of filters) xs in
   chain_total dist filters xs /\
@@ -55,15 +59,19 @@ Theorem C19_chain_perm :
 Proof. exact (fun dist S => @chain_perm dist S). Qed.
 Print Assumptions C19_chain_perm.
 
-(* no decodable message makes a built-in filter raise: every message shape, coordinates None included *)
+(* no decodable message makes a built-in filter raise: every message shape, coordinates None included, computed
+   attributes that cannot be computed (truncated type 9/18/26: is_sotdma / is_itdma / communication_state_raw raise
+   TypeError) included *)
 Theorem C19_no_raise :
-  forall dist f m, builtin f = true -> coords_numeric m = true -> exists b, filter_keep dist f m = Ok b.
+  forall dist f m, builtin f = true -> coords_numeric m = true -> attr_reads_ok m = true ->
+  exists b, filter_keep dist f m = Ok b.
 Proof. exact no_raise. Qed.
 Print Assumptions C19_no_raise.
 
 (* a chain of built-in filters never raises on decoded messages *)
 Theorem C19_builtin_chain_total :
-  forall dist fs xs, forallb builtin fs = true -> forallb coords_numeric xs = true -> chain_total dist fs xs.
+  forall dist fs xs, forallb builtin fs = true -> forallb coords_numeric xs = true -> forallb attr_reads_ok xs = true ->
+  chain_total dist fs xs.
 Proof. exact builtin_chain_total. Qed.
 Print Assumptions C19_builtin_chain_total.
 
@@ -117,40 +125,119 @@ Theorem C19_unrepaired_raises :
 Proof. exact unrepaired_raises. Qed.
 Print Assumptions C19_unrepaired_raises.
 
+(* ---- computed attributes (Python properties whose getter may raise) ---------------------------------------- *)
+(* whenever a filter answers -- on ANY message, whatever its getters raise, for the built-in classes; coordinates of
+   the decoded shape for the geographic ones -- the answer is the criterion's *)
+Theorem C19_keep_sound :
+  forall dist f m b, coords_numeric m = true -> filter_keep dist f m = Ok b ->
+  crit_satisfies dist (criterion_of f) m = b.
+Proof. exact keep_sound. Qed.
+Print Assumptions C19_keep_sound.
+
+(* "listed attributes present and not None": a listed computed attribute that cannot be evaluated for a message is
+   not present -- the message is not passed (Spec/FilterSpec.v [present_not_none] says so independently) *)
+Theorem C19_unevaluable_attribute_not_passed :
+  forall dist m attrs name e b,
+  In name attrs -> py_attr_lookup (pm_attrs m) name = Some (Raise e) ->
+  filter_keep dist (NoneFilter attrs) m = Ok b -> b = false.
+Proof. exact none_unevaluable_not_passed. Qed.
+Print Assumptions C19_unevaluable_attribute_not_passed.
+
+(* all() stops at the first listed attribute that is absent or None; a getter listed after it is not reached *)
+Theorem C19_none_short_circuit :
+  forall m pre a post,
+  forallb (present_not_none m) pre = true ->
+  (py_attr_lookup (pm_attrs m) a = None \/ py_attr_lookup (pm_attrs m) a = Some (Ok ANone)) ->
+  none_all m (pre ++ a :: post) = Ok false.
+Proof. exact none_all_short_circuit. Qed.
+Print Assumptions C19_none_short_circuit.
+
+(* the limit of the repair: a getter that raises something other than AttributeError / TypeError / ValueError (KeyError,
+   say) and is reached still escapes.  Outside the property's scope: no decoded message has one ([attr_reads_ok]). *)
+Theorem C19_none_other_exception_escapes :
+  forall dist m pre name post e,
+  forallb (present_not_none m) pre = true ->
+  py_attr_lookup (pm_attrs m) name = Some (Raise e) ->
+  catches [HPy AttributeError] e = false -> catches [HPy TypeError; HPy ValueError] e = false ->
+  filter_keep dist (NoneFilter (pre ++ name :: post)) m = Raise e.
+Proof. exact none_other_exception_escapes. Qed.
+Print Assumptions C19_none_other_exception_escapes.
+
+(* the unchanged NoneFilter (before the fix: commit) raised TypeError on a type 18 report cut before its radio field
+   for each of is_sotdma / is_itdma / communication_state_raw, unless all() had stopped earlier; the repaired one
+   answers "not passed".  The message is of the decoded shape. *)
+Theorem C19_nonefilter_unrepaired_raises :
+  forall dist,
+  let m := filter_truncated_type18 in
+  none_body_unrepaired ["is_sotdma"%string] m = Raise (Py TypeError) /\
+  none_body_unrepaired ["is_itdma"%string] m = Raise (Py TypeError) /\
+  none_body_unrepaired ["communication_state_raw"%string] m = Raise (Py TypeError) /\
+  none_body_unrepaired ["mmsi"%string; "is_sotdma"%string] m = Raise (Py TypeError) /\
+  none_body_unrepaired ["course"%string; "is_sotdma"%string] m = Ok false /\
+  filter_keep dist (NoneFilter ["is_sotdma"%string]) m = Ok false /\
+  filter_keep dist (NoneFilter ["is_itdma"%string]) m = Ok false /\
+  filter_keep dist (NoneFilter ["communication_state_raw"%string]) m = Ok false /\
+  filter_keep dist (NoneFilter ["mmsi"%string; "is_sotdma"%string]) m = Ok false /\
+  filter_keep dist (NoneFilter ["mmsi"%string; "MAX_COMM_STATE_VALUE"%string]) m = Ok true /\
+  coords_numeric m = true /\ attr_reads_ok m = true /\ attr_reads_total m = false.
+Proof. exact nonefilter_unrepaired_raises. Qed.
+Print Assumptions C19_nonefilter_unrepaired_raises.
+
+(* ... it was total only on messages none of whose getters raise *)
+Theorem C19_nonefilter_unrepaired_total :
+  forall m attrs, attr_reads_total m = true -> exists b, none_all_unrepaired m attrs = Ok b.
+Proof. exact none_all_unrepaired_total. Qed.
+Print Assumptions C19_nonefilter_unrepaired_total.
+
 (* ---- non-vacuity: a concrete chain of all five classes over a concrete list that meets every hypothesis ---- *)
 Definition ex_dist (p q : lat_lon) : ratio :=           (* any function will do; this one is |dlat| + |dlon| on integers *)
   mkRatio (Z.abs (ratio_num (fst p) - ratio_num (fst q)) + Z.abs (ratio_num (snd p) - ratio_num (snd q))) 1.
 Definition q (z : Z) : ratio := ratio_of_Z z.
-Definition ex_msg (t : Z) (lat lon : option aval) (speed : aval) : pymsg :=
-  mkPyMsg t (("msg_type"%string, ANum (q t)) :: ("speed"%string, speed) ::
-           (match lon with Some v => [("lon"%string, v)] | None => [] end) ++
-           (match lat with Some v => [("lat"%string, v)] | None => [] end)).
+Definition ex_msg (t : Z) (lat lon : option aval) (speed : aval) (is_sotdma : M aval) : pymsg :=
+  mkPyMsg t (("msg_type"%string, Ok (ANum (q t))) :: ("speed"%string, Ok speed) ::
+           (match lon with Some v => [("lon"%string, Ok v)] | None => [] end) ++
+           (match lat with Some v => [("lat"%string, Ok v)] | None => [] end) ++
+           [("is_sotdma"%string, is_sotdma)]).                       (* a computed attribute *)
+Definition yes : M aval := Ok (AOther true).
 Definition ex_msgs : list pymsg :=
-  [ ex_msg 1 (Some (ANum (q 5))) (Some (ANum (q 5))) (ANum (q 3));     (* inside everything *)
-    ex_msg 1 (Some ANone) (Some ANone) (ANum (q 3));                   (* truncated: no position, passes geo *)
-    ex_msg 1 (Some (ANum (q 10))) (Some (ANum (q 10))) (ANum (q 3));   (* distance exactly 10: not strictly within *)
-    ex_msg 3 (Some (ANum (q 0))) (Some (ANum (q 9))) (ANum (q 3));     (* lat 0, on the grid edge lon = 9: inside *)
-    ex_msg 5 None None (ANum (q 3));                                   (* wrong type *)
-    ex_msg 3 (Some (ANum (q 1))) (Some (ANum (q 1))) (ANum (q 0));     (* speed 0 is falsy *)
-    ex_msg 3 (Some (ANum (q 1))) (Some (ANum (q 1))) ANone;            (* speed None *)
-    ex_msg 1 (Some (ANum (q 5))) (Some (ANum (q 5))) (ANum (q 3)) ].   (* an equal message again *)
+  [ ex_msg 1 (Some (ANum (q 5))) (Some (ANum (q 5))) (ANum (q 3)) yes;     (* inside everything *)
+    ex_msg 1 (Some ANone) (Some ANone) (ANum (q 3)) yes;                   (* truncated: no position, passes geo *)
+    ex_msg 1 (Some (ANum (q 10))) (Some (ANum (q 10))) (ANum (q 3)) yes;   (* distance exactly 10: not strictly within *)
+    ex_msg 3 (Some (ANum (q 0))) (Some (ANum (q 9))) (ANum (q 3)) (Ok (AOther false));  (* lat 0, on the grid edge lon = 9: inside *)
+    ex_msg 5 None None (ANum (q 3)) yes;                                   (* wrong type *)
+    ex_msg 3 (Some (ANum (q 1))) (Some (ANum (q 1))) (ANum (q 0)) yes;     (* speed 0 is falsy *)
+    ex_msg 3 (Some (ANum (q 1))) (Some (ANum (q 1))) ANone yes;            (* speed None *)
+    ex_msg 1 (Some (ANum (q 5))) (Some (ANum (q 5))) (ANum (q 3)) yes;     (* an equal message again *)
+    (* a type 18 report cut before its radio field: inside everything, but is_sotdma cannot be computed (TypeError);
+       only the NoneFilter keeps it out *)
+    ex_msg 18 (Some (ANum (q 5))) (Some (ANum (q 5))) (ANum (q 3)) (Raise (Py TypeError));
+    (* the same with a getter raising ValueError *)
+    ex_msg 18 (Some (ANum (q 5))) (Some (ANum (q 5))) (ANum (q 3)) (Raise (Py ValueError)) ].
 Definition ex_chain : list filter_cfg :=
-  [ NoneFilter ["speed"%string; "msg_type"%string]; MessageTypeFilter [1; 3];
+  [ NoneFilter ["speed"%string; "msg_type"%string; "is_sotdma"%string]; MessageTypeFilter [1; 3; 18];
     DistanceFilter (q 5, q 5) (q 10); GridFilter (q 0) (q 0) (q 9) (q 9);
     AttributeFilter (upred_eval (UTruthy "speed")) ].
 
 Example C19_nonvacuous :
   ex_chain <> [] /\ map (@Ok pymsg) ex_msgs = map Ok ex_msgs /\ forallb coords_numeric ex_msgs = true /\
+  forallb attr_reads_ok ex_msgs = true /\ forallb attr_reads_total ex_msgs = false /\
   user_functions_total ex_chain ex_msgs /\
   bind (filter_chain_run ex_dist ex_chain (@Ok pymsg) ex_msgs) mgen_list
   = Ok [nth 0 ex_msgs truncated_report; nth 1 ex_msgs truncated_report; nth 3 ex_msgs truncated_report;
         nth 7 ex_msgs truncated_report] /\
   bind (filter_chain_run ex_dist (rev ex_chain) (@Ok pymsg) ex_msgs) mgen_list
-  = bind (filter_chain_run ex_dist ex_chain (@Ok pymsg) ex_msgs) mgen_list.
+  = bind (filter_chain_run ex_dist ex_chain (@Ok pymsg) ex_msgs) mgen_list /\
+  (* without the NoneFilter the two truncated type 18 reports pass: it is that filter, on the computed attribute, that
+     keeps them out *)
+  bind (filter_chain_run ex_dist (tl ex_chain) (@Ok pymsg) ex_msgs) mgen_list
+  = Ok [nth 0 ex_msgs truncated_report; nth 1 ex_msgs truncated_report; nth 3 ex_msgs truncated_report;
+        nth 7 ex_msgs truncated_report; nth 8 ex_msgs truncated_report; nth 9 ex_msgs truncated_report].
 Proof.
-  split; [discriminate|]. split; [reflexivity|]. split; [vm_compute; reflexivity|]. split.
+  split; [discriminate|]. split; [reflexivity|]. split; [vm_compute; reflexivity|]. split; [vm_compute; reflexivity|].
+  split; [vm_compute; reflexivity|]. split.
   - intros m Hm ff Hf. unfold ex_chain in Hf. simpl in Hf.
     repeat (destruct Hf as [Hf|Hf]; [try discriminate|]); [|contradiction].
-    injection Hf as <-. eexists. reflexivity.
-  - split; vm_compute; reflexivity.
+    injection Hf as <-. unfold ex_msgs in Hm. simpl in Hm.
+    repeat (destruct Hm as [<-|Hm]; [eexists; vm_compute; reflexivity|]). contradiction.
+  - repeat split; vm_compute; reflexivity.
 Qed.
